@@ -95,6 +95,22 @@ pub fn run(out: &mut Out, seed: u64, tier: &str) {
             if c.min_distance() >= 0.5 { mols.push(c); made += 1; }
         } }
     }
+    // the corpus runs first: starts that exposed a fault once (kept minimal, each file says where it came from)
+    let corpus_dir = concat!(env!("CARGO_MANIFEST_DIR"), "/../corpus/opt");
+    let mut corpus: Vec<Mol> = vec![];
+    if let Ok(rd) = std::fs::read_dir(corpus_dir) {
+        let mut files: Vec<_> = rd.filter_map(|e| e.ok()).map(|e| e.path()).filter(|p| p.extension().map(|x| x == "xyz").unwrap_or(false)).collect();
+        files.sort();
+        for f in files {
+            if let Some((syms, xs)) = std::fs::read(&f).ok().and_then(|b| crate::s_cli::parse_xyz(&b)) {
+                let zs: Vec<usize> = syms.iter().map(|s| z_of(s)).collect();
+                corpus.push(Mol { name: format!("corpus:{}", f.file_name().unwrap().to_string_lossy()), zs, xs });
+            }
+        }
+    }
+    out.stat("corpus_starts", corpus.len());
+    corpus.extend(mols.into_iter());
+    let mols = corpus;
     let (mut n, mut n_dom, mut moved_n, mut worst_rise) = (0usize, 0usize, 0usize, 0.0f64);
     let mut n_conv = 0usize;
     for m in mols.iter() {
